@@ -836,8 +836,11 @@ class Cas:
 
 
 def _sort_func(a: FeatureStructure) -> Tuple[int, int, int]:
-    d = a.__slots__
-    if "begin" in d and "end" in d:
-        return a.begin, a.end, id(a)
+    begin = getattr(a, "begin", None)
+    end = getattr(a, "end", None)
+    # Only integer offsets order the index; everything else (no offsets, offsets not set, or features of another
+    # range which merely happen to be called begin and end) comes last
+    if isinstance(begin, int) and isinstance(end, int):
+        return begin, end, id(a)
     else:
         return sys.maxsize, sys.maxsize, id(a)
